@@ -8,6 +8,7 @@ use vmodel::engine::{Failure, ShardCtx, Tier, Verdict};
 pub mod common;
 pub mod declcommon;
 pub mod fuzzdrv;
+pub mod hookfree;
 pub mod c01;
 pub mod c02;
 pub mod c03;
